@@ -771,6 +771,14 @@ class S3StorageBackend(StorageBackend):
         from .s3_consistency import with_s3_retry
 
         s3_prefix = self._get_s3_key(prefix)
+        # `prefix` names a DIRECTORY. S3's Prefix parameter is a plain string
+        # prefix, so "t/data" would also match the sibling directories
+        # "t/data2/", "t/data_backup/", "t/database/" ... - and garbage
+        # collection would then classify (and delete) their objects as orphans
+        # of data/. Listing "t/data/" confines the result to the directory,
+        # which is what LocalStorageBackend.list_files returns.
+        if s3_prefix and not s3_prefix.endswith("/"):
+            s3_prefix += "/"
 
         def list_op() -> List[str]:
             result = []
